@@ -352,6 +352,11 @@ func (c15) Exec(seed int64, i int, tier string) Record {
 	if i%50 == 23 {
 		return c15TwinCase(r) // b13_helpers.go
 	}
+	if i%20 == 17 {
+		// class overlap-probe (b16_probes.go): an evaluation suspended in a user function while the same parsed function
+		// fails at another depth on another document still reports its own failing step
+		return b16C15(r, i/20)
+	}
 	o := DefaultOpts()
 	o.ErrBias = 15
 	plain := Config(false, nil)
